@@ -143,7 +143,7 @@ Definition stack_data (gs : list gfile) (order : list nat) (sh : list nat) : arr
     [if stack_dtype == np.uint16 and bits_stored < 16: stack_dtype = np.int16]
     ([bits_stored = get_meta('BitsStored', default=16)]) *)
 Definition bits_stored_of (g : gfile) : nat := match g_bits_stored g with Some b => b | None => bits_stored_default end.
-Definition stack_dtype (g0 : gfile) : str :=
+Definition out_dtype (g0 : gfile) : str :=
   if g_unsigned16 g0 && (bits_stored_of g0 <? hack_bits) then int16_str else g_dtype g0.
 
 (* ------------------------------------------------------------------------------------------ *)
@@ -226,7 +226,7 @@ Definition conv_geom (gs : list gfile) (st : state) (code : str) (embed : bool) 
                   match rn with
                   | Err e => (st3, Err e)
                   | Ok n =>
-                      (st3, Ok (mkgeom n ord0 g0 d0 A0 d (stack_dtype g0) A T o (ornt_perm o) (ornt_flips o)))
+                      (st3, Ok (mkgeom n ord0 g0 d0 A0 d (out_dtype g0) A T o (ornt_perm o) (ornt_flips o)))
                   end
               end
           | _, _ => (st2, Err ECrash)          (* a file without its [gfile]: outside the model *)
